@@ -14,7 +14,7 @@ EXTRA_TARGETS = ["Model/Canon.vo", "Model/C08Step.vo"]
 NB = msggen.NBUILTIN
 
 TRUSTED = [
-    "Coq 8.16.1 kernel and vm_compute (no native_compute); full .vo build via coq_makefile; axioms: none (all 20 theorems of Properties/C08.v "
+    "Coq 8.16.1 kernel and vm_compute (no native_compute); full .vo build via coq_makefile; axioms: none (all 42 theorems of Properties/C08.v "
     "are 'Closed under the global context')",
     "hand-written model coq/Model/{Object,Eq,Float,Utf8,TimeCore,Encode,Decode}.v (shared codec model) and coq/Model/C08Step.v "
     "(load taken apart into step / decode_value / store / loopV — proved equal to Decode.load by conversion, Proofs/C08StepP.v load_unfold —, "
